@@ -1482,7 +1482,8 @@ emitdata(struct decl *d, struct init *init)
 			(https://todo.sr.ht/~mcf/cproc/38)
 			*/
 			assert(cur->expr->kind == EXPRSTRING);
-			assert(init->expr->kind == EXPRCONST);
+			if (init->expr->kind != EXPRCONST)
+				error(&tok.loc, "initializer is not a constant expression");
 			i = (init->start - cur->start) / cur->expr->type->base->size;
 			if (i >= cur->expr->u.string.size) {
 				/* the literal is shorter than the array; extend it with zeros up to this element */
